@@ -464,6 +464,35 @@ class NumpyReplayer(Replayer):
             self.objs.append(numpy.asarray(res))
 
 
+
+def dirty_out_check(rep, algopy, names, seed):
+    """class-level functions that take out=: a buffer holding other data (e.g. the result of an earlier call) must not change
+    the value that is returned, whether the function writes into it or ignores it"""
+    from algopy import UTPM
+    rng = numpy.random.RandomState((seed + 17) % 2 ** 31)
+    D, P = 3, 2
+    A = UTPM(rng.randint(-3, 4, size=(D, P, 3, 3)).astype(float)); A.data[0] += 5 * numpy.eye(3)
+    B = UTPM(rng.randint(-3, 4, size=(D, P, 3, 3)).astype(float)); B.data[0] = abs(B.data[0]) + 1 + 4 * numpy.eye(3)     # (no zero divisor base)
+    v = UTPM(rng.randint(-3, 4, size=(D, P, 3)).astype(float)); w = UTPM(rng.randint(1, 4, size=(D, P, 3)).astype(float))
+    calls = {"add": lambda o: UTPM.add(A, B, out=o), "sub": lambda o: UTPM.sub(A, B, out=o), "mul": lambda o: UTPM.mul(A, B, out=o),
+             "div": lambda o: UTPM.div(A, B, out=o), "neg": lambda o: UTPM.neg(A, out=o),
+             "dot": lambda o: UTPM.dot(A, B, out=o), "dot_mv": lambda o: UTPM.dot(A, v, out=o), "outer": lambda o: UTPM.outer(v, w, out=o),
+             "diag": lambda o: UTPM.diag(v, out=o), "diag_k1": lambda o: UTPM.diag(v, k=1, out=o), "diag_extract": lambda o: UTPM.diag(A, out=o),
+             "tril": lambda o: UTPM.tril(A, out=o), "triu": lambda o: UTPM.triu(A, k=1, out=o)}
+    for nm in names:
+        rep.case(("dirty-out", nm), nontrivial=True)
+        try:
+            ref = calls[nm](None)
+            buf = UTPM(ref.data * 3.0 + 7.0)
+            got = calls[nm](buf)
+            if got.data.shape != ref.data.shape or not numpy.array_equal(got.data, ref.data):
+                rep.violation("UTPM.%s with out= a buffer holding other data returns another value" % nm.split("_")[0], {"case": nm})
+        except NotImplementedError:
+            pass
+        except Exception as ex:
+            rep.violation("UTPM.%s with out= raises %s" % (nm.split("_")[0], type(ex).__name__), {"case": nm, "what": repr(ex)[-200:]})
+
+
 def relational(rep, algopy, records, tag, mode, limit=None, seed=0):
     """mode 'dir': every multi-direction behaviour re-run on each single direction;
        mode 'trunc': re-run on inputs truncated to every D' < D;
